@@ -8,7 +8,9 @@ with tempfile.TemporaryDirectory() as d:
     x = os.path.join(d, 'j.xml')
     env = dict(os.environ); env.pop('SPATIALMATH_VERIF', None); env['MPLBACKEND'] = env.get('MPLBACKEND', 'Agg')
     p = subprocess.run(['/venv/bin/python', '-m', 'pytest', '-ra', '-q', '-p', 'no:cacheprovider', '--timeout=900',
-                        '--continue-on-collection-errors', '--junitxml=' + x], cwd=repo, env=env,
+                        '--continue-on-collection-errors', '--junitxml=' + x,
+                        # the two always-failing tests that only wait for their 900 s timeout are not part of the 228
+                        '--deselect', 'tests/base/test_transforms3d.py::Test3D::test_plot', '--deselect', 'tests/test_pose2d.py::TestSE2::test_graphics'], cwd=repo, env=env,
                        stdout=subprocess.PIPE, stderr=subprocess.STDOUT, text=True)
     passed = set()
     for tc in ET.parse(x).getroot().iter('testcase'):
